@@ -1,4 +1,9 @@
 import HeraProofs.Props.C14
+import HeraProofs.Props.C14b
 open Hera
 #print axioms C14_eval
 #print axioms C14_eval_range
+#print axioms Mini.mono_succ
+#print axioms Mini.claimB
+#print axioms Mini.C14_parse_raw
+#print axioms Mini.C14_parse
